@@ -687,6 +687,40 @@ func runConfig(cfg srvCfg, ci int) {
 			run.Distinct(fmt.Sprintf("%s|queue-timeout|v%d", cfg, b.Version))
 		}
 	}
+	// ---- phase 2b: queue timeout with a handle timeout configured (bounded pool) ----
+	// the one worker is held by a handler for 150 ms (shorter than the 250 ms handle timeout, so it
+	// is answered normally); the requests queued behind it carry a timeout of 50 ms of their own,
+	// which has elapsed when the worker reaches them: not executed, answered with the queue-timeout code
+	if cfg.Pool == 1 && cfg.HandleMs > 0 {
+		c := clients[0]
+		gate := make(chan struct{})
+		a := reqSpec{ID: nextID(r), Version: 1, Func: "outFirst", Timeout: 60000, Token: fmt.Sprintf("c10-%d-gateA2", ci), Kind: "ok", Ret: 12, TokenOut: "A2"}
+		w.Servant.SetDirective(a.Token, &vworld.Directive{Ret: a.Ret, Outs: []interface{}{a.TokenOut}, Gate: gate})
+		c.conn.Write(buildRequest(a, obj))
+		if waitFor(func() bool { return len(w.Servant.ReceivedFor(a.Token)) == 1 }, 3*time.Second) {
+			var bs []reqSpec
+			for k := 0; k < 3; k++ {
+				b := reqSpec{ID: nextID(r), Version: []int16{1, 3, 5}[k], Func: "outFirst", Timeout: 50, Token: fmt.Sprintf("c10-%d-queued2-%d", ci, k), Kind: "queue-timeout"}
+				w.Servant.SetDirective(b.Token, &vworld.Directive{Ret: int64(1), Outs: []interface{}{"never"}})
+				c.conn.Write(buildRequest(b, obj))
+				bs = append(bs, b)
+			}
+			time.Sleep(150 * time.Millisecond)
+			close(gate)
+			run.Eval(4)
+			if !judge(cfg, w, c, a, witBase) {
+				return
+			}
+			for _, b := range bs {
+				if !judge(cfg, w, c, b, witBase) {
+					return
+				}
+				run.Distinct(fmt.Sprintf("%s|queue-timeout|v%d", cfg, b.Version))
+			}
+		} else {
+			close(gate)
+		}
+	}
 	// ---- phase 3: handle timeout ----
 	if cfg.HandleMs > 0 {
 		c := clients[0]
